@@ -21,9 +21,9 @@ import (
 type ekind int
 
 const (
-	eNone ekind = iota
-	eType       // detectable from the types of the leaves alone: mismatch, missing, undefined, bad signature
-	eValue      // depends on values: division by zero, bad conversion, substring bounds
+	eNone  ekind = iota
+	eType        // detectable from the types of the leaves alone: mismatch, missing, undefined, bad signature
+	eValue       // depends on values: division by zero, bad conversion, substring bounds
 )
 
 type absent struct{}
